@@ -8,6 +8,7 @@ import (
 	"encoding/binary"
 	"errors"
 	"fmt"
+	"sync"
 
 	"github.com/klauspost/compress/s2"
 	"github.com/klauspost/compress/zstd"
@@ -140,6 +141,11 @@ func uv(dst []byte, v uint64) []byte {
 	return append(dst, tmp[:n]...)
 }
 
+var (
+	zOnce sync.Once
+	zEnc  *zstd.Encoder
+)
+
 func encBlock(data []byte, typ byte) []byte {
 	switch typ {
 	case 1:
@@ -149,10 +155,8 @@ func encBlock(data []byte, typ byte) []byte {
 		w.Close()
 		return append([]byte{1}, buf.Bytes()...)
 	case 2:
-		e, _ := zstd.NewWriter(nil, zstd.WithEncoderCRC(false))
-		out := e.EncodeAll(data, nil)
-		e.Close()
-		return append([]byte{2}, out...)
+		zOnce.Do(func() { zEnc, _ = zstd.NewWriter(nil, zstd.WithEncoderCRC(false)) })
+		return append([]byte{2}, zEnc.EncodeAll(data, nil)...) // EncodeAll may be used concurrently
 	}
 	return append([]byte{0}, data...)
 }
